@@ -462,7 +462,13 @@ impl<'a> Gen<'a> {
                 .gather_labels
                 .iter()
                 .filter(|(k, path)| {
-                    let has_temps = |b: &Block| b.stmts.iter().any(|s| matches!(s, Stmt::TempDecl(..)));
+                    fn has_temps(b: &Block) -> bool {
+                        b.stmts.iter().any(|s| matches!(s, Stmt::TempDecl(..)))
+                            || b.group.as_ref().map(|g| {
+                                g.choices.iter().any(|c| has_temps(&c.body))
+                                    || g.gather.as_ref().map(|(_, rest)| has_temps(rest)).unwrap_or(false)
+                            }).unwrap_or(false)
+                    }
                     let parts: Vec<&str> = path.split('.').collect();
                     if parts.len() == 3 {
                         !prog.knots[*k].stitches.iter().any(|st| st.name == parts[1] && has_temps(&st.body))
